@@ -63,6 +63,8 @@ func runC15(c *Ctx) {
 	checkSyncStateReadUnderManagerLock(c, "C15-R5")
 	// the wallet can follow the backend only if the notifications reach it in the order they were produced
 	c.Borrow(runC18, "C18-R1", "C15-R2", func(k string) bool { return strings.HasPrefix(k, "direct-handoff-only-when-overflow-empty") })
+	// ... and all of them: a queue that drops or replaces a waiting block notification leaves the wallet behind for good
+	c.Borrow(runC18, "C18-R5", "C15-R2", func(k string) bool { return strings.HasPrefix(k, "queue-length-test-is-emptiness") })
 	// the two stores move together during recovery too: a batch's stamps and the transactions found in it are written in
 	// one database transaction
 	c.Borrow(runC16, "C16-R5", "C15-R1", func(k string) bool { return strings.HasPrefix(k, "batch-stamps-in-same-update-after-recovery") })
